@@ -279,6 +279,14 @@ class ConnectionPool(RequestInterface):
         """
         closing_connections = []
 
+        # A connection that has been assigned to a request still reports itself
+        # as being idle up until the point that the request starts to use it.
+        assigned = [
+            request.connection
+            for request in self._requests
+            if request.connection is not None
+        ]
+
         # First we handle cleaning up any connections that are closed,
         # have expired their keep-alive, or surplus idle connections.
         for connection in list(self._connections):
@@ -291,15 +299,14 @@ class ConnectionPool(RequestInterface):
                 closing_connections.append(connection)
             elif (
                 connection.is_idle()
+                and connection not in assigned
                 and len([connection.is_idle() for connection in self._connections])
                 > self._max_keepalive_connections
             ):
                 # log: "closing idle connection"
                 self._connections.remove(connection)
                 closing_connections.append(connection)
-            elif not connection.is_idle() and not any(
-                request.connection is connection for request in self._requests
-            ):
+            elif not connection.is_idle() and connection not in assigned:
                 # log: "closing abandoned connection"
                 # A connection that is busy, but that has no request assigned
                 # to it, was abandoned part way through a cancelled request.
@@ -317,7 +324,9 @@ class ConnectionPool(RequestInterface):
                 if connection.can_handle_request(origin) and connection.is_available()
             ]
             idle_connections = [
-                connection for connection in self._connections if connection.is_idle()
+                connection
+                for connection in self._connections
+                if connection.is_idle() and connection not in assigned
             ]
 
             # There are three cases for how we may be able to handle the request:
@@ -330,11 +339,13 @@ class ConnectionPool(RequestInterface):
                 # log: "reusing existing connection"
                 connection = available_connections[0]
                 pool_request.assign_to_connection(connection)
+                assigned.append(connection)
             elif len(self._connections) < self._max_connections:
                 # log: "creating new connection"
                 connection = self.create_connection(origin)
                 self._connections.append(connection)
                 pool_request.assign_to_connection(connection)
+                assigned.append(connection)
             elif idle_connections:
                 # log: "closing idle connection"
                 connection = idle_connections[0]
@@ -344,6 +355,7 @@ class ConnectionPool(RequestInterface):
                 connection = self.create_connection(origin)
                 self._connections.append(connection)
                 pool_request.assign_to_connection(connection)
+                assigned.append(connection)
 
         return closing_connections
 
